@@ -232,6 +232,9 @@ def rule_assigned(ctx, rep):
             assigning.add(i)
     # the block that inspects self.library's discriminant with a None arm leading to the panic
     panic_bbs = [c.bb for c in b.calls() if c.callee and c.callee.startswith("core::panicking::")]
+    if not panic_bbs:
+        r.ok("Source::library", "%s:%d" % (b.f["file"], b.f["line"]), "no panicking arm in Source::library (nothing to guard)")
+        return
     assigned_on_true = False
     for c in b.calls():
         if c.callee == "core::option::Option::is_none" and c.target is not None:
